@@ -12,7 +12,7 @@ use rustc_span::{ExpnKind, Span};
 const KNOWN_MACROS: &[&str] = &[
     "trace", "debug", "info", "warn", "error", "log", "format", "format_args", "assert",
     "assert_eq", "assert_ne", "debug_assert", "debug_assert_eq", "debug_assert_ne",
-    "unreachable", "panic", "write", "writeln", "vec", "matches", "todo", "unimplemented",
+    "unreachable", "panic", "write", "writeln", "vec", "todo", "unimplemented",
     "println", "eprintln", "print", "eprint",
 ];
 
